@@ -24,7 +24,7 @@ FILE_STAGES = {
     "_takewithtime": ["take_with_time"], "_skipwithtime": ["skip_with_time"], "_takeuntilwithtime": ["take_until_with_time"],
     "_skipuntilwithtime": ["skip_until_with_time"], "_window": ["window_boundaries", "window_when", "window_toggle", "buffer_boundaries", "buffer_when"],
     "_windowwithcount": ["window_count", "buffer_count"], "_windowwithtime": ["window_time", "buffer_time"],
-    "_windowwithtimeorcount": ["window_time_or_count", "buffer_time_or_count"], "_groupbyuntil": ["group_by", "group_by_until"],
+    "_windowwithtimeorcount": ["window_time_or_count", "buffer_time_or_count"], "_groupbyuntil": ["group_by", "group_by_until", "group_by_until_self"], "utils": ["window_count_skipwin", "window_boundaries_skipwin", "window_count", "window_boundaries"],
     "_groupjoin": ["group_join_count", "window_toggle"], "_join": ["join"], "_multicast": ["share", "publish_ref_count", "publish_mapper"],
     "_refcount": ["share", "publish_ref_count", "replay_ref_count"], "connectableobservable": ["share", "publish_ref_count"],
     "using": ["using"], "_finallyaction": ["finally_action"], "_do": ["do_action", "do_finally", "do_on_dispose"],
